@@ -24,7 +24,7 @@ def run(ctx):
     if ctx.tier == "thorough":
         ctx.leanchecker(mods)
     # constraint graphs vs the proved-principal reference unifier
-    gn = 1500 if ctx.tier == "quick" else 60000
+    gn = 1500 if ctx.tier == "quick" else 30000
     mism = ctx.stream("c02.graph", [fcdrv], env=gocommon.fc_env("c02graph", "%d %d" % (ctx.seed + 5, gn)), timeout=20000)
     for (i, e, o) in (mism or [])[:3]:
         src = ""
